@@ -11,12 +11,13 @@ Definition ADDRESS_KEYS : list (list Z) :=
   [k_address; k_offset; k_offsets; k_module_offset; k_function_offset; k_base_addr; k_end_addr;
    k_thread; k_dialog_mode; k_abort_cause].
 
-(* [k] is the name of the enclosing member *)
+(* [k] is the name of the enclosing member; the free-form content of "soft_errors" (objects written by the dump writer, member
+   names of their own) is not judged *)
 Fixpoint widths (w : pwidth) (k : list Z) (v : json) {struct v} : bool :=
   match v with
   | JStr x => if memb k ADDRESS_KEYS then width_ok w x else true
   | JArr l => forallb (widths w k) l
-  | JObj l => forallb (fun kv => let '(k', v') := kv in widths w k' v') l
+  | JObj l => forallb (fun kv => let '(k', v') := kv in if list_eqb k' k_soft_errors then true else widths w k' v') l
   | _ => true
   end.
 
